@@ -372,6 +372,7 @@ func linkAttrAlphabet() []string {
 		` href="https:e.x/p"`,  // no slashes after a special scheme: a browser still finds the host e.x
 		` href="ftp:e.x/p"`,
 		` href="https:/e.x/p"`, // one slash: net/url sees a path, a browser the host e.x
+		` href="http://e.x/100%"`, // net/url refuses the escape, a browser follows the link (survives only with RequireParseableURLs(false))
 		` rel=""`, ` rel="nofollow"`, ` rel="noreferrer"`, ` rel="noopener"`, ` rel="NOFOLLOW"`, ` rel="nofollowx"`, ` rel="xnofollow"`,
 		` rel="external nofollow"`, ` rel="a&#9;b"`, ` rel="xnoopener noreferrerx"`, ` rel="nofollow&nbsp;noreferrer&nbsp;noopener"`,
 		` target="_blank"`, ` target="_self"`, ` target="x"`, ` title="t"`,
